@@ -54,9 +54,9 @@ theorem framesOK_mapLive {s : State} {f : Block → Block} (hf : KeepsBlock f) :
       | cons m ms =>
         simp only [FramesOK] at h ⊢
         exact ⟨h.1, cpOK_mapLive hf h.2.1, ih _ _ h.2.2⟩
-    | alignedLower outer =>
+    | alignedLower outer start =>
       simp only [FramesOK] at h ⊢
-      exact ⟨h.1, ih _ _ h.2⟩
+      exact ⟨h.1, h.2.1.mono (ChunksCov.of_eq rfl), ih _ _ h.2.2⟩
     | alignedRaise outer =>
       simp only [FramesOK] at h ⊢
       exact ⟨h.1, h.2.1, ih _ _ h.2.2⟩
